@@ -31,6 +31,8 @@ Observed(o) ==
                  /\ Chk("handle.ro", o.handles[p].ro = (h'[p].st = "ro"))
                  /\ Chk("count", o.handles[p].count = Cardinality(h'[p].seen))
                  /\ Chk("nfid", h'[p].st = "rw" => o.handles[p].nfid = Cardinality(h'[p].seen) + h'[p].pins)
+  /\ Chk("inv.name_lock", WriterHoldsNameLock')                                    \* C17: a writer holds a lock of the inode the path names
+  /\ Chk("inv.one_writer", Cardinality({p \in Proc : h'[p].st = "rw"}) <= 1)      \* C17, evaluated on every observed state
   /\ Chk("dir", o.dir = <<"m.mv2">>)
 
 TraceInit == l = 1 /\ Init
@@ -42,9 +44,27 @@ TReset == /\ IsEvent("reset")
           /\ h' = [p \in Proc |-> NoHandle] /\ lost' = {} /\ nput' = 0
           /\ last' = Obs("-", "init", "ok")
 
-TOpen == IsEvent("open") /\ (Open(P) \/ OpenReplay(P) \/ OpenBusy(P)) /\ Matches /\ Observed(Ev.obs)
-TOpenRO == IsEvent("open_ro") /\ (OpenRO(P) \/ OpenROBusy(P)) /\ Matches /\ Observed(Ev.obs)
+\* which of the alternatives happened is decided by logged data (result, probe), so that a diagnosis run does not
+\* report the checks of the alternative that was not taken
+TOpen == /\ IsEvent("open")
+         /\ IF ~ResOk THEN OpenBusy(P)
+            ELSE IF Ev.obs.probe = "busy" THEN Open(P) ELSE OpenReplay(P)
+         /\ Matches /\ Observed(Ev.obs)
+TOpenRO == IsEvent("open_ro") /\ (IF ResOk THEN OpenRO(P) ELSE OpenROBusy(P)) /\ Matches /\ Observed(Ev.obs)
 TPut == IsEvent("put") /\ Put(P) /\ Matches /\ Observed(Ev.obs)
+\* downgrade_to_shared() does nothing on a read-only or dirty handle; whether a clean writable handle still has a
+\* lexical flush pending (then it refuses as well) is not logged: TLC infers it from the observed handle mode
+TDowngrade == /\ IsEvent("downgrade") /\ ResOk
+              /\ IF h[P].st = "rw" /\ ~h[P].dirty /\ Has(Ev.obs.handles, P) /\ Ev.obs.handles[P].ro THEN Downgrade(P) ELSE UNCHANGED vars
+              /\ Observed(Ev.obs)
+\* a put on a read-only handle: upgrade, then the put (or the upgrade fails with a Lock error)
+TWPut == /\ IsEvent("wput")
+         /\ IF h[P].st = "rw" THEN Put(P) /\ ResOk
+            ELSE IF ResOk THEN UpgradeThenPut(P)
+            \* the call failed: either the upgrade timed out, or (a handle opened read-only has a read-only log) the
+            \* upgrade succeeded and the put was then refused - the handle is left writable
+            ELSE IF Has(Ev.obs.handles, P) /\ ~Ev.obs.handles[P].ro THEN UpgradeOk(P) ELSE UpgradeFail(P)
+         /\ Observed(Ev.obs)
 TInPlace == IsEvent("inplace") /\ InPlace(P) /\ Matches /\ Observed(Ev.obs)
 \* a doctor that was refused the lock must not have touched the file
 TDoctor == /\ IsEvent("doctor") /\ Doctor(P) /\ Observed(Ev.obs)
@@ -58,21 +78,23 @@ Commit2(p) == CommitWhole(p)
 
 \* whether a commit of a handle without pending puts still goes through staging + rename depends on
 \* un-logged index state (a lexical flush pending after open): TLC infers it from the probe
+\* a commit of a handle without pending puts went through staging + rename iff the handle's lock changed from
+\* exclusive to shared (a pending lexical flush is not logged)
+Renamed(p) == h[p].st = "rw" /\ exLock[h[p].lock] = p /\ Ev.obs.probe = "shared"
 TCommit == /\ IsEvent("commit")
            /\ IF h[P].st = "rw" /\ h[P].dirty
                 THEN Commit2(P) /\ last'.res = "ok" /\ ResOk
-                ELSE (Commit2(P) \/ InPlace(P)) /\ ResOk
+                ELSE (IF Renamed(P) THEN Commit2(P) ELSE InPlace(P)) /\ ResOk
            /\ Observed(Ev.obs)
 
-TVacuum == /\ IsEvent("vacuum")
-           /\ IF h[P].dirty THEN Commit2(P) ELSE (Commit2(P) \/ InPlace(P))
-           /\ ResOk /\ Observed(Ev.obs)
+\* vacuum compacts on a staging copy that replaces the file (after its leading commit): the path names a new inode
+TVacuum == /\ IsEvent("vacuum") /\ Commit2(P) /\ ResOk /\ Observed(Ev.obs)
 
 TClose == /\ IsEvent("close")
           /\ IF h[P].st = "rw" /\ h[P].dirty THEN CloseDirty(P) ELSE Close(P)
           /\ ResOk /\ Observed(Ev.obs)
 
-TraceNext == TReset \/ TOpen \/ TOpenRO \/ TPut \/ TInPlace \/ TDoctor \/ TCommit \/ TVacuum \/ TClose
+TraceNext == TDowngrade \/ TWPut \/ TReset \/ TOpen \/ TOpenRO \/ TPut \/ TInPlace \/ TDoctor \/ TCommit \/ TVacuum \/ TClose
 
 TraceSpec == TraceInit /\ [][TraceNext]_tvars
 
